@@ -10,8 +10,12 @@ Flow of one run
      DBSCAN with both back ends (metric / scalar type / power-of-two scale varied per case).
   3. impl -> spec: the harness also records seeded random larger data sets (1..150 rows,
      1..4 dimensions, chains with gaps exactly eps, blobs, duplicates, bridges, all-identical,
-     single rows) and a family of widely spread half-integer sets in 2..4 dimensions (small eps
-     relative to the spread: deep cover trees with many children per node).
+     single rows), a family of widely spread half-integer sets in 2..4 dimensions (small eps
+     relative to the spread: deep cover trees with many children per node), a size ladder
+     (255..513 rows quick, 63..1025 thorough, clusters stored late in the row order; predict
+     batches of 257..1025 rows), multi-scale dyadic sets (tight groups at 2^-45 of the extent,
+     two-level integer codes) and geometric (doubling) coordinates; inherent and api-trait
+     entry points.
   4. TLC validates every recorded event with DbscanTrace.tla, i.e. with the very predicates
      of step 1: the seven clauses of the labelling, back-end independence, and PredictOK.
   5. A failed clause is a VIOLATION (or a KNOWN-FINDING when listed in known_findings/C13.json);
@@ -58,7 +62,9 @@ RULE = ("Data sets: (a) every input of the Emit model-checking configurations, r
         "3x2 lattice; thorough: 1..7 points on {0..3}, 1..5 points on 3x2, 1..4 on 2x2, each with every eps / minPts "
         "of its configuration; (b) seeded random sets of 1..150 points in 1..4 dimensions (uniform lattice boxes, "
         "blobs, chains with steps exactly eps, duplicates, bridges between two clusters, all-identical; widely spread "
-        "half-integer sets and far-apart islands in 2..4 dimensions with eps small relative to the spread), eps from "
+        "half-integer sets and far-apart islands in 2..4 dimensions with eps small relative to the spread; a size "
+        "ladder up to 513 (quick) / 1025 (thorough) rows with late-stored clusters and long predict batches; "
+        "multi-scale dyadic sets with groups at 2^-40..2^-48 of the extent; doubling coordinates), eps from "
         "'all noise' to 'one cluster', minPts 1..8, Manhattan / Minkowski-1 / Euclidean, f64 / f32, power-of-two "
         "scales. A data set is non-trivial when it has a border row or at least two clusters (decided by TLC from "
         "the definitions); distinct = distinct (points, key, eps, minPts)")
@@ -76,7 +82,8 @@ def variant(idx, key, thorough):
         metric = "euclidean"
     ty = "f32" if idx % 4 == 3 else "f64"
     scale = (0, -3, 0, 7, 0, -16)[idx % 6]
-    return metric, ty, scale
+    api = "trait" if idx % 5 == 4 else "inherent"
+    return metric, ty, scale, api
 
 
 def run_lane(ctx, lane):
@@ -129,8 +136,9 @@ def validate(ctx, events, tag, nchunks):
 
 
 def describe(e):
-    return "n=%d d=%d key=%s eps=%d minPts=%d metric=%s ty=%s scaleExp=%d src=%s" % (
-        len(e["pts"]), len(e["pts"][0]), e["key"], e["eps"], e["minPts"], e["metric"], e["ty"], e["scaleExp"], e["src"])
+    return "n=%d d=%d key=%s eps=%d minPts=%d metric=%s ty=%s scaleExp=%d api=%s src=%s" % (
+        len(e["pts"]), len(e["pts"][0]), e["key"], e["eps"], e["minPts"], e["metric"], e["ty"], e["scaleExp"],
+        e.get("api", "inherent"), e["src"])
 
 
 def key_and_what(e, clause):
@@ -185,9 +193,9 @@ def run(ctx):
     lines = []
     for idx, ck in enumerate(order_of):
         d = cases[ck]["d"]
-        metric, ty, scale = variant(idx, d["key"], th)
+        metric, ty, scale, api = variant(idx, d["key"], th)
         lines.append({"ev": "Run", "src": "lattice", "case": idx, "pts": d["pts"], "key": d["key"], "eps": d["eps"],
-                      "minPts": d["minPts"], "metric": metric, "ty": ty, "scaleExp": scale})
+                      "minPts": d["minPts"], "metric": metric, "ty": ty, "scaleExp": scale, "api": api})
     casef = ctx.path("c13-cases.ndjson")
     vlib.write_ndjson(casef, lines)
     repf = ctx.path("c13-replayed.ndjson")
@@ -264,6 +272,9 @@ def replay(ctx, path):
     same inputs on the current tree and validate what the code returns now.  Exit 1 when the
     re-executed events still fail a clause, 0 when they pass (e.g. after a fix)."""
     d = json.load(open(path))
+    for e in d["events"]:      # artefacts recorded before the two-level codes / api field existed
+        e.setdefault("enc", {"M": 0, "L": 0, "K": 0})
+        e.setdefault("api", "inherent")
     f = ctx.path("replay-recorded.ndjson")
     vlib.write_ndjson(f, d["events"])
     v, bads = ctx.tlc_trace("cluster/DbscanTrace.tla", "cluster/DbscanTrace.cfg", f, tag="trace-recorded")
